@@ -1,5 +1,4 @@
 use crate::distributions::*;
-use crate::functions::binom_coeff;
 
 /// Implements the [Binomial](https://en.wikipedia.org/wiki/https://en.wikipedia.org/wiki/Binomial_distribution)
 /// distribution with trials `n` and probability of success `p`.
@@ -270,9 +269,19 @@ impl Discrete for Binomial {
         if k < 0 || k as u64 > self.n {
             return 0.;
         }
-        binom_coeff(self.n, k as u64) as f64
-            * self.p.powi(k as i32)
-            * (1. - self.p).powi((self.n - k as u64) as i32)
+        let k = k as u64;
+        if self.p == 0. {
+            return if k == 0 { 1. } else { 0. };
+        }
+        if self.p == 1. {
+            return if k == self.n { 1. } else { 0. };
+        }
+        // the integer coefficient overflows u64 from n = 68 (binom_coeff then returns 0 or wraps) and
+        // p^k underflows in the tails (n = 1000, p = 0.3, k = 619), so the factors are combined in log space
+        let ln_coeff: f64 = (1..=k.min(self.n - k))
+            .map(|i| ((self.n - i + 1) as f64 / i as f64).ln())
+            .sum();
+        (ln_coeff + k as f64 * self.p.ln() + (self.n - k) as f64 * (-self.p).ln_1p()).exp()
     }
 }
 
